@@ -18,6 +18,7 @@ import (
 	"context"
 	"errors"
 	"fmt"
+	"math"
 	"time"
 
 	"github.com/olric-data/olric/config"
@@ -196,6 +197,10 @@ func (dm *DMap) syncPutOnCluster(e *env, nt storage.Entry) error {
 		successful++
 	}
 	err := dm.putEntryOnFragment(e, nt)
+	if errors.Is(err, ErrKeyTooLarge) || errors.Is(err, ErrEntryTooLarge) {
+		// The entry itself is invalid. This is not a matter of the write quorum.
+		return err
+	}
 	if err != nil {
 		if dm.s.log.V(3).Ok() {
 			dm.s.log.V(3).Printf("[ERROR] Failed to call put command on %s for DMap: %s: %v", dm.s.rt.This(), e.dmap, err)
@@ -302,6 +307,12 @@ func (dm *DMap) putOnCluster(e *env) error {
 
 	if err = dm.checkPutConditions(e); err != nil {
 		return err
+	}
+
+	if len(e.key) > math.MaxUint8 {
+		// The encoded form of an entry keeps the length of the key in a single byte. The
+		// backups receive that form and would store a corrupt entry.
+		return ErrKeyTooLarge
 	}
 
 	if dm.config != nil {
